@@ -275,6 +275,21 @@ func runC20(c *fw.Ctx) {
 						}
 					}
 				}
+				// a declared tag is also referred to - by name - by every interaction whose automatic
+				// tag has that name (TAG @cats and GET /cats share the entry tags/@cats)
+				for _, d := range b.Defines {
+					if !strings.HasPrefix(d, "tag:@") {
+						continue
+					}
+					for _, od := range o.Defines {
+						if i := strings.Index(od, ":/"); i >= 0 {
+							seg := strings.SplitN(strings.TrimPrefix(od[i+1:], "/"), "/", 2)[0]
+							if "@"+seg == strings.TrimPrefix(d, "tag:") {
+								needed = true
+							}
+						}
+					}
+				}
 			}
 			if needed {
 				continue
